@@ -13,6 +13,7 @@ class BudgetExceeded(BaseException):
 _mon = getattr(sys, "monitoring", None)
 _COV_ID = 1  # sys.monitoring.COVERAGE_ID
 _BUD_ID = 2  # sys.monitoring.PROFILER_ID
+_LIN_ID = 4
 
 
 class Reach:
@@ -59,6 +60,41 @@ class Reach:
             (reached if ok else missing).append(f"{f}:{q}")
         return {"anchors_total": len(anchors), "anchors_reached": len(reached),
                 "anchors_missing": missing}
+
+
+class LineCov:
+    """First-hit line coverage of repo code (tools/line_reach.py): each line location disables itself after its first
+    LINE event, so the cost is negligible.  Diagnostic only (what the workloads never drive); never part of a verdict."""
+
+    def __init__(self):
+        self.root = os.path.realpath(common.REPO) + os.sep
+        self.hit = set()
+        self.on = False
+
+    def start(self):
+        if _mon is None or self.on:
+            return self
+        try:
+            _mon.use_tool_id(_LIN_ID, "verif-linecov")
+        except ValueError:
+            return self
+        _mon.register_callback(_LIN_ID, _mon.events.LINE, self._cb)
+        _mon.set_events(_LIN_ID, _mon.events.LINE)
+        self.on = True
+        return self
+
+    def _cb(self, code, lineno):
+        fn = code.co_filename
+        if fn.startswith(self.root):
+            self.hit.add((fn[len(self.root):], lineno))
+        return _mon.DISABLE
+
+    def stop(self):
+        if self.on:
+            _mon.set_events(_LIN_ID, 0)
+            _mon.register_callback(_LIN_ID, _mon.events.LINE, None)
+            _mon.free_tool_id(_LIN_ID)
+            self.on = False
 
 
 class StepBudget:
